@@ -253,6 +253,7 @@ func c05ReqKeys() []c05ReqKey {
 				c05ReqPD("query", "form", true, "limit", true, intS("max", 10)),
 				c05ReqPD("query", "form", true, "limit", false, intS("max", 100)),
 				c05ReqPD("query", "form", true, "limit", false, c05PS("string")),
+				c05With(c05ReqPD("query", "form", true, "limit", true, intS("min", 0)), "useDefaults", true), // style and explode left to SerializationMethod
 			},
 			values: []any{nil, "5", "50", "500", "abc", "-3"},
 		},
@@ -260,6 +261,7 @@ func c05ReqKeys() []c05ReqKey {
 			variants: []map[string]any{
 				c05ReqPD("header", "simple", false, "X-Seq", true, intS()),
 				c05ReqPD("header", "simple", false, "X-Seq", false, intS("min", 5)),
+				c05With(c05ReqPD("header", "simple", false, "X-Seq", false, c05PS("boolean")), "useDefaults", true),
 			},
 			values: []any{nil, "1", "7", "x"},
 		},
@@ -326,7 +328,9 @@ func c05GenReq(ctx *hx.Ctx, emit func(hx.Case)) {
 	// (not / variant) and on the operation (not / variant) × both list orders × {plain, exclude-then-plain} × MultiError
 	// × a value menu; the same request is sent on every call
 	two := keys[:2]
-	opt := func(k c05ReqKey) []map[string]any { return append([]map[string]any{nil}, k.variants...) }
+	opt := func(k c05ReqKey) []map[string]any { // the last declaration of each key (keywords defaulted) is left to the stream
+		return append([]map[string]any{nil}, k.variants[:len(k.variants)-1]...)
+	}
 	for _, piL := range opt(two[0]) {
 		for _, opL := range opt(two[0]) {
 			for _, piS := range opt(two[1]) {
